@@ -215,6 +215,17 @@ func (r *RequireModule) loadModule(path string) (*js.Object, error) {
 		r.modules[path] = module
 		err := r.loadModuleFile(path, module)
 		if err != nil {
+			// forget the failed module under every name it was reached by while it was being evaluated
+			for k, m := range r.modules {
+				if m == module {
+					delete(r.modules, k)
+				}
+			}
+			for k, m := range r.nodeModules {
+				if m == module {
+					delete(r.nodeModules, k)
+				}
+			}
 			module = nil
 			delete(r.modules, path)
 			if errors.Is(err, ModuleFileDoesNotExistError) {
